@@ -1,5 +1,6 @@
 import HcipyVerif.Lemmas.NearField
 import HcipyVerif.Lemmas.FourierLinkC04
+import HcipyVerif.Lemmas.NearFieldExec
 
 /-!
 # C04 — near-field propagators are linear, passive, adjoint-backward and additive
@@ -521,6 +522,119 @@ theorem fresnel_unitary_dft_id (k z : ℝ) (kx ky : Fin My × Fin Mx → ℝ) (x
   fresnel_unitary _ Function.bijective_id k z kx ky x
 
 end dft
+
+/-! ## the propagator the code builds: executable cut-out, executable sample points, the DFT
+
+`propagate p h Dir = filter (dftPair2 (my p) (mx p)) (cutoutEmb p h) (modelD p Dir)` (`Lemmas/NearFieldExec.lean`)
+is assembled from the very definitions the driver runs and the harness compares with the real objects:
+`my`/`mx` (op `setup`: `M=`), `embY`/`embX` (op `emb`; the harness lays the input out with these indices when it
+recomputes `forward` *and* `backward`), `impulseBranch` (`branch=`), `subFreqs` at the `ifftshiftIdx`-ed index
+(op `tfq`: the phases of exactly these sub-samples, compared with the array the real filter multiplies with, in
+FFT layout), and `fftn`/`ifftn` by their specification `Fft.dft2`.  The only hypothesis is `padOK p` (non-empty
+grid, padding factors `≥ 1` — what the driver and hcipy's constructor insist on); `Dir` is the transfer function
+of the impulse-response branch, about which nothing is assumed. -/
+
+section exec
+variable (p : Params) (h : padOK p = true)
+
+/-- The executable cut-out is injective (item (i) of the audit) … -/
+theorem cutout_embedding_injective : Function.Injective (cutoutEmb p h) := cutoutEmb_injective p h
+
+/-- … and a bijection when `cutout p = none` (nothing padded). -/
+theorem cutout_embedding_bijective_of_unpadded (hc : cutout p = none) :
+    Function.Bijective (cutoutEmb p h) := cutoutEmb_bijective p h hc
+
+/-- A padding factor of one on both axes (`zero_padding = 1`) gives `cutout p = none`. -/
+theorem cutout_none_of_unit_padding (hk : p.kind = .fresnel) (hqx : p.qx = 1) (hqy : p.qy = 1) :
+    cutout p = none := by
+  rw [cutout_eq_none_iff]
+  unfold mx my effQx effQy
+  rw [hk]
+  simp only [hqx, hqy]
+  exact ⟨padded_one _, padded_one _⟩
+
+/-- Every regime (either branch, any `Dir`): linear. -/
+theorem propagate_linear (Dir : Fin (my p) × Fin (mx p) → ℂ) (a b : ℂ) (x y : Fin p.ny × Fin p.nx → ℂ) :
+    propagate p h Dir (a • x + b • y) = a • propagate p h Dir x + b • propagate p h Dir y :=
+  filter_linear _ _ _ a b x y
+
+/-- Every regime: `backward` is the exact adjoint of `forward`. -/
+theorem propagate_adjoint (Dir : Fin (my p) × Fin (mx p) → ℂ) (x y : Fin p.ny × Fin p.nx → ℂ) :
+    ip y (propagate p h Dir x) = ip (propagateBack p h Dir y) x :=
+  filter_adjoint _ _ _ x y
+
+/-- Transfer-function branch (in particular the regime the property names, `statedRegime_tf`): power never
+increases — Fresnel or (repaired) angular spectrum, any padding, any oversampling, either sign of `z`. -/
+theorem propagate_power_nonincreasing (hb : impulseBranch p = false) (Dir : Fin (my p) × Fin (mx p) → ℂ)
+    (x : Fin p.ny × Fin p.nx → ℂ) : nsq (propagate p h Dir x) ≤ nsq x :=
+  power_nonincreasing _ (cutoutEmb_injective p h) (norm_modelD_le_one hb Dir) x
+
+theorem propagate_power_nonincreasing_of_statedRegime (hr : statedRegime p = true)
+    (Dir : Fin (my p) × Fin (mx p) → ℂ) (x : Fin p.ny × Fin p.nx → ℂ) :
+    nsq (propagate p h Dir x) ≤ nsq x :=
+  propagate_power_nonincreasing p h (statedRegime_tf hr) Dir x
+
+/-- Bridge (iii): `z` and `-z` take the same branch. -/
+theorem impulseBranch_symmetric_in_z :
+    impulseBranch (withParam p (.distance (-p.z))) = impulseBranch p := impulseBranch_neg_z p
+
+/-- Transfer-function branch: the propagator built for `-z`, forward, is the propagator built for `+z`,
+backward (both are on the same branch by `impulseBranch_symmetric_in_z`). -/
+theorem propagate_neg_z_eq_backward (hb : impulseBranch p = false)
+    (Dir Dir' : Fin (my p) × Fin (mx p) → ℂ) (x : Fin p.ny × Fin p.nx → ℂ) :
+    propagate (withParam p (.distance (-p.z))) h Dir' x = propagateBack p h Dir x := by
+  rw [propagate_withZ]
+  show filter _ (cutoutEmb p h) (modelDz p (-p.z) Dir') x
+    = filter _ (cutoutEmb p h) (fun m => conj (modelD p Dir m)) x
+  congr 1
+  funext m
+  rw [modelDz_of_tf (by rw [impulseBranch_neg_z]; exact hb), modelD_of_tf hb]
+  exact sampledTF_neg_z p _ _
+
+/-- Fresnel, `zero_padding = 1` (`cutout p = none`), `num_oversampling = 1`, transfer-function branch: unitary. -/
+theorem propagate_unitary (hk : p.kind = .fresnel) (hx : p.sx = 1) (hy : p.sy = 1) (hc : cutout p = none)
+    (hb : impulseBranch p = false) (Dir : Fin (my p) × Fin (mx p) → ℂ) (x : Fin p.ny × Fin p.nx → ℂ) :
+    nsq (propagate p h Dir x) = nsq x :=
+  filter_unitary _ (cutoutEmb_bijective p h hc) (norm_modelD_fresnel_unpadded hk hx hy hb Dir) x
+
+/-- … `backward` inverts `forward`. -/
+theorem propagate_backward_inverse (hk : p.kind = .fresnel) (hx : p.sx = 1) (hy : p.sy = 1)
+    (hc : cutout p = none) (hb : impulseBranch p = false) (Dir : Fin (my p) × Fin (mx p) → ℂ)
+    (x : Fin p.ny × Fin p.nx → ℂ) :
+    propagateBack p h Dir (propagate p h Dir x) = x :=
+  filter_backward_inverse _ (cutoutEmb_bijective p h hc) (norm_modelD_fresnel_unpadded hk hx hy hb Dir) x
+
+/-- … and the propagator built for `z₁` followed by the one built for `z₂` (same sign) is the one built for
+`z₁ + z₂`, provided the *sum* is adequately sampled (then all three are on the transfer-function branch,
+`same_sign_same_branch`). -/
+theorem propagate_additive (hk : p.kind = .fresnel) (hx : p.sx = 1) (hy : p.sy = 1) (hc : cutout p = none)
+    (z₁ z₂ : ℚ) (hs : 0 ≤ z₁ * z₂) (hlam : 0 ≤ p.lam) (hL : 0 < lmax p)
+    (hb : impulseBranch (withParam p (.distance (z₁ + z₂))) = false)
+    (Dir₁ Dir₂ Dir₁₂ : Fin (my p) × Fin (mx p) → ℂ) (x : Fin p.ny × Fin p.nx → ℂ) :
+    propagate (withParam p (.distance z₂)) h Dir₂ (propagate (withParam p (.distance z₁)) h Dir₁ x)
+      = propagate (withParam p (.distance (z₁ + z₂))) h Dir₁₂ x := by
+  obtain ⟨hb1, hb2⟩ := same_sign_same_branch p z₁ z₂ hs hlam hL hb
+  rw [propagate_withZ, propagate_withZ, propagate_withZ, filter_comp _ (cutoutEmb_bijective p h hc)]
+  congr 1
+  funext m
+  rw [modelDz_of_tf hb1, modelDz_of_tf hb2, modelDz_of_tf hb, sampledTF_withZ_of_no_oversampling hx hy,
+    sampledTF_withZ_of_no_oversampling hx hy, sampledTF_withZ_of_no_oversampling hx hy,
+    nativeAt_withZ_fresnel hk, nativeAt_withZ_fresnel hk, nativeAt_withZ_fresnel hk]
+  exact fresnelAt_mul p z₁ z₂ _
+
+end exec
+
+/-- The hypotheses of the `propagate_*` theorems are satisfiable together: an 8×6 Fresnel propagator with
+`zero_padding = 1`, `num_oversampling = 1` inside the stated regime. -/
+example : ∃ p : Params, padOK p = true ∧ p.kind = .fresnel ∧ p.sx = 1 ∧ p.sy = 1 ∧ cutout p = none ∧
+    statedRegime p = true ∧ impulseBranch p = false ∧ 0 ≤ p.lam ∧ 0 < lmax p :=
+  ⟨{ kind := .fresnel, nx := 8, ny := 6, dx := 1/4, dy := 1/4, lam := 1/16, z := 1/2, n := 1, qx := 1, qy := 1,
+     sx := 1, sy := 1 }, by decide +kernel⟩
+
+/-- … and a padded, oversampled angular-spectrum propagator satisfies `padOK` with a genuine cut-out. -/
+example : ∃ p : Params, padOK p = true ∧ cutout p = some (3, 9, 4, 12) ∧ impulseBranch p = false :=
+  ⟨{ kind := .angular, nx := 8, ny := 6, dx := 1/4, dy := 1/4, lam := 1/16, z := -1/2, n := 1, qx := 1, qy := 1,
+     sx := 2, sy := 2 }, by decide +kernel⟩
 
 /-! ### one axis (`fft` / `ifft`, `c = M`) -/
 
